@@ -448,11 +448,93 @@ def rule_r6_keys(ctx: Ctx) -> None:
     approx_keys.rule(ctx, "C06.R6", ["_serdes"], "SerializableType equality is name + version + approximate length set: a tag / field table looked up by it belongs to another type", "pydsdl/_serdes.py")
 
 
+def concrete_grid(ctx: Ctx) -> Any:
+    """(types, [(type, [values])]): the concrete grid shared by C06.R7 / C07.R6"""
+    from . import concrete as C
+
+    cached = getattr(ctx, "_concrete_grid", None)
+    if cached is not None:
+        return cached
+    T = C.Types(ctx)
+    u3, u8t, u16s, b1, i7, f16, f32, f64 = T.uint(3), T.uint(8), T.uint(16, True), T.boolean(), T.sint(7), T.float_(16), T.float_(32), T.float_(64)
+    s1 = T.struct("S1 {uint3 a; void5; saturated uint16 b; uint8[<=2] c; bool d; float32 e; int7 f}", [("a", u3), ("", T.void(5)), ("b", u16s), ("c", T.varr(u8t, 2)), ("d", b1), ("e", f32), ("f", i7)])
+    inner = T.struct("Inner {uint8 p; uint8[<=3] q}", [("p", u8t), ("q", T.varr(u8t, 3))])
+    s2 = T.struct("S2 {Inner[2] xs; Inner[<=2] ys; uint3 z}", [("xs", T.farr(inner, 2)), ("ys", T.varr(inner, 2)), ("z", u3)])
+    un = T.union("U {uint8 first; saturated uint16 second; Inner third}", [("first", u8t), ("second", u16s), ("third", inner)])
+    d = T.delimited(inner, 64)
+    s3 = T.struct("S3 {delimited Inner[<=3] ds; uint8 tail; delimited Inner one; U u}", [("ds", T.varr(d, 3)), ("tail", u8t), ("one", d), ("u", un)])
+    ds3 = T.delimited(s3, 8 * 64)
+    fl = T.struct("F {float16 h; bool k; float64 d; float32 s; float16 h2}", [("h", f16), ("k", b1), ("d", f64), ("s", f32), ("h2", f16)])
+    I = lambda p, q: {"p": p, "q": list(q)}  # noqa: E731
+    grid = [
+        (s1, [{"a": 5, "b": 0x1234, "c": [7, 9], "d": True, "e": 1.5, "f": -3}, {"a": 0, "b": 0, "c": [], "d": False, "e": 0.0, "f": 0},
+              {"a": 7 + 8, "b": 70000, "c": [255], "d": True, "e": -0.375, "f": -64}, {"a": 2, "b": -4, "c": [1, 2], "d": False, "e": 1024.0, "f": 100}]),
+        (s2, [{"xs": [I(1, [2]), I(3, [])], "ys": [], "z": 1}, {"xs": [I(255, [1, 2, 3]), I(0, [9])], "ys": [I(4, [5, 6]), I(7, [])], "z": 7}]),
+        (un, [{"first": 200}, {"second": 65535}, {"second": 99999}, {"third": I(1, [2, 3])}]),
+        (d, [I(1, []), I(2, [3, 4, 5])]),
+        (s3, [{"ds": [I(1, [1, 2, 3]), I(2, []), I(3, [4])], "tail": 0xAB, "one": I(9, [8]), "u": {"first": 1}},
+              {"ds": [], "tail": 1, "one": I(0, []), "u": {"third": I(5, [6])}},
+              {"ds": [I(1, [1, 2, 3]), I(2, [1, 2, 3]), I(3, [])], "tail": 2, "one": I(7, [1, 2, 3]), "u": {"second": 3}}]),
+        (ds3, [{"ds": [I(1, [2, 3]), I(4, [])], "tail": 5, "one": I(6, [7]), "u": {"first": 8}}]),
+        (fl, [{"h": 1.5, "k": True, "d": -2.000000000000001, "s": 3.25, "h2": -0.5}, {"h": 65504.0, "k": False, "d": 1e300, "s": 1.1754943508222875e-38, "h2": 6.103515625e-05},
+              {"h": float("inf"), "k": True, "d": float("-inf"), "s": 0.0, "h2": -0.0}]),
+    ]
+    ctx._concrete_grid = (T, grid)  # type: ignore
+    return ctx._concrete_grid  # type: ignore
+
+
+def _same(a: Any, b: Any) -> bool:
+    """equality that tells 0.0 from -0.0 and an int from a bool"""
+    import math
+
+    if isinstance(a, dict) and isinstance(b, dict):
+        return list(a) == list(b) and all(_same(a[k], b[k]) for k in a)
+    if isinstance(a, (list, tuple)) and isinstance(b, (list, tuple)):
+        return len(a) == len(b) and all(_same(x, y) for x, y in zip(a, b))
+    if isinstance(a, float) and isinstance(b, float):
+        return (math.isnan(a) and math.isnan(b)) or (a == b and math.copysign(1, a) == math.copysign(1, b))
+    return type(a) is type(b) and a == b
+
+
+def rule_r7_concrete(ctx: Ctx) -> None:
+    """R1-R5 decide the codec's *event traces* over abstract schemas.  This rule evaluates the codec itself - serialize and
+    deserialize with the bit writer / reader underneath, all from the source - on concrete nested types and values, and compares
+    the bytes with the Specification's encoding written down independently (rules/concrete.py)."""
+    from . import concrete as C
+
+    ctx.rule("C06.R7", "concrete types x values, evaluated from the source: serialize yields exactly the Specification's bytes (LSB first, alignment padding, length prefix, union tag, delimiter header, saturation / truncation), their bit length is in the type's bit_length_set, and deserialize gives the value back - on every call, in whatever order the objects are serialized [bounded grid]", min_instances=5)
+    T, grid = concrete_grid(ctx)
+    n = 0
+    for t, values in grid:
+        bad = []
+        # two passes, the second in reverse order: whatever the codec keeps between calls must not matter
+        for order in (values, list(reversed(values))):
+            for v in order:
+                for hdr in ((False, True) if t.kind == "delimited" else (False,)):
+                    want = C.encode(t, v, hdr)
+                    got = C.run_codec(ctx, T, "serialize", t, v, hdr)
+                    n += 1
+                    if not isinstance(got, (bytes, bytearray)) or bytes(got) != want:
+                        bad.append({"value": repr(v)[:120], "with header": hdr, "found": got.hex() if isinstance(got, (bytes, bytearray)) else got, "Specification": want.hex()})
+                        continue
+                    lens = t.inner.lengths if (t.kind == "delimited" and not hdr) else t.lengths  # type: ignore
+                    if 8 * len(want) not in lens:
+                        raise AnalysisError("the reference encoding of %s has %d bits, not in the type's length set: the rule's own model is inconsistent" % (t.label, 8 * len(want)))
+                    back_want = C.decode(t, want, hdr)
+                    back = C.run_codec(ctx, T, "deserialize", t, bytes(got), hdr)
+                    n += 1
+                    if not _same(back, back_want):
+                        bad.append({"value": repr(v)[:120], "bytes": want.hex(), "deserialized": repr(back)[:160], "expected": repr(back_want)[:160]})
+        ctx.check(not bad, t.label, "%d values x serialize / deserialize x 2 passes" % len(values), "the wire encoding is the Specification's and the value comes back", "pydsdl/_serdes.py", bad[:3])
+    ctx.count(n)
+
+
 def run(ctx: Ctx) -> None:
     ctx.attempt(rule_r1_r2, ctx)
     ctx.attempt(rule_r3, ctx)
     ctx.attempt(rule_r4, ctx)
     ctx.attempt(rule_r5, ctx)
     ctx.attempt(rule_r6_keys, ctx)
+    ctx.attempt(rule_r7_concrete, ctx)
     ctx.assume("struct.pack/unpack implement IEEE 754 binary16/32/64 (trusted stdlib); write_bits/read_bits are LSB-first (bit arithmetic not decided here; offset accounting is C07.R3)")
     ctx.undecided("value round trip for all (type, value) pairs; IEEE-754 / two's-complement / LSB-first bit patterns; equivalence of the aligned fast path and the bit-wise slow path; byte equality of the relaxed input forms")
